@@ -223,6 +223,15 @@ func (s *State) invoke(iv *IfaceV, static types.Type, m *types.Func, args []Valu
 			res = append(res, s.symValue(t, fmt.Sprintf("%s.ret%d", m.Name(), i)))
 		}
 		e := LogEntry{Callee: short, Target: iv, Args: args, Arr: &ArrZero{W: 8}, Off: Const(64, 0), N: Const(64, 0), RetN: Const(64, 0), Err: s.zeroValue(errorType()), Rets: res}
+		for _, a := range args {
+			if p, ok := a.(*SliceV); ok && p.object() != nil {
+				if so, isS := sortOf(p.Elem); isS && so.Kind == KBV && so.W == 8 {
+					e.Arr, e.Off, e.N = s.sliceArr(p), p.Off, p.Len
+					e.BufObj = p.object()
+					break
+				}
+			}
+		}
 		if len(res) > 0 {
 			if ev, ok := res[len(res)-1].(*IfaceV); ok {
 				e.Err = ev
